@@ -21,7 +21,7 @@ V = os.path.dirname(os.path.dirname(os.path.abspath(__file__)))
 tmp = tempfile.mkdtemp(prefix="optyx_mut_")
 ok = True
 try:
-    shutil.copytree("/repo/src", os.path.join(tmp, "src"))
+    shutil.copytree(os.environ.get("REPO_SRC", "/repo/src"), os.path.join(tmp, "src"))
     subprocess.run(["git", "init", "-q"], cwd=tmp, check=True)
     p = subprocess.run(["git", "apply", "--whitespace=nowarn", os.path.abspath(a.patch)], cwd=tmp, capture_output=True, text=True)
     if p.returncode != 0:
